@@ -5,6 +5,7 @@ use std::panic;
 
 mod util;
 mod c_time;
+mod c_amf0;
 
 fn run_case(line: &str) -> String {
     let mut it = line.splitn(2, ' ');
@@ -12,6 +13,7 @@ fn run_case(line: &str) -> String {
     let rest = it.next().unwrap_or("");
     match comp {
         "time" => c_time::run(rest),
+        "amf0" => c_amf0::run(rest),
         _ => format!("HARNESS-UNKNOWN-COMPONENT {}", comp),
     }
 }
